@@ -4243,7 +4243,10 @@ class LoopNode(ActionSinkNode, ActionSourceNode):
                         ambiguous = symbol in starts_iteration or (DFTransition.Else in starts_iteration and symbol not in never_starts_iteration)
                     else:
                         restart = loop_start[symbol]
-                        ambiguous = restart is not None and not restart.error_handling and restart.target != transition.target
+                        # (going on to the same state is the same thing only when nothing else tells the two readings apart: the way back
+                        # to the start of the body performs what opens an iteration, and each transition what it carries)
+                        ambiguous = restart is not None and not restart.error_handling and (
+                            restart.target != transition.target or bool(self.loop_start_actions) or list(restart.actions) != list(transition.actions))
                     if ambiguous:
                         raise IllegalDFAStateConflictsError("Ambigious loop: should loop or continue matching", transition, *([restart] if restart is not None else []))
 
